@@ -152,7 +152,7 @@ PROPS = {
     "C08": {
         "title": "Reachability operations return exactly the least fixed point",
         "rules": [on_program(rules_dispatch.rule_dispatch), rules_ftype.rule_mix_image, on_program(rules_sibling.rule_image_fire), on_program(rules_dispatch.rule_split_complete), on_program(rules_sibling.rule_graph_diagonals),
-                  on_program(rules_ct.rule_key_level_flag), on_program(rules_level.rule_position_kind), on_program(rules_level.rule_chain_args), on_program(rules_level.rule_compare_after_store), on_program(rules_ct.rule_state_in_key)],
+                  on_program(rules_ct.rule_key_level_flag), on_program(rules_level.rule_position_kind), on_program(rules_level.rule_chain_args), on_program(rules_level.rule_compare_after_store), on_program(rules_ct.rule_state_in_key), on_program(rules_sibling.rule_policy_reachability)],
         "explanation": STRUCTURAL + ". C08: one clause — the traditional (frontier / no frontier), saturation and one-step image factories select the same accumulate operator per forest kind "
                        "(boolean MT: UNION, integer MT: DIST_MIN, EV+: MINIMUM), a necessary condition of all algorithms returning the identical edge and of the distance variants using (min, +1) everywhere; "
                        "plus the cross-forest discipline of the reachability code.",
@@ -165,7 +165,7 @@ PROPS = {
     "C09": {
         "title": "One-step image and vector-matrix products follow the relational definition",
         "rules": [rules_ftype.rule_mix_image, on_program(rules_sibling.rule_image_fire), on_program(rules_dispatch.rule_dispatch), on_program(rules_ct.rule_key_level_flag),
-                  on_program(rules_level.rule_next_level), on_program(rules_level.rule_position_kind), on_program(rules_level.rule_chain_args), on_program(rules_level.rule_operand_unpack)],
+                  on_program(rules_level.rule_next_level), on_program(rules_level.rule_position_kind), on_program(rules_level.rule_chain_args), on_program(rules_level.rule_operand_unpack), on_program(rules_sibling.rule_policy_reachability)],
         "explanation": STRUCTURAL + ". C09: flag clause (the constructor flag that decides whether the level is part of the compute-table key — i.e. whether levels skipped by both operands are summed over — is computed from the operand (key) forests only); twin clause (the image step and saturation's fire step define their shared locals alike; the index range written into the result node is the size of the node's own level); cross-forest clause — in the image / vector-matrix template (all instantiations), its helpers and the relation-node abstraction, set forest, relation forest and result forest are three symbols and every handle is used only with its own.",
         "assumptions": ["the relational definition itself is not decided", "the key-level-flag rule decides which forests the level-skipping flag may depend on, not that the flag's formula is the right one", "prepost_set_mtrel's private _compute is reached with swapped operands for MV_MULTIPLY; its parameter roles are then left unknown (no alarm, fewer checks)"],
         "technique": "forest-indexed typing of node handles over clang CFGs; twin comparison; constructor flag provenance (reduction-rule queries vs compute-table key forests); sign typing of level locals",
